@@ -242,6 +242,9 @@ def cases_for(entry, opt, tier):
             for pl in placements(len(chosen), tier):
                 for flag in (False, True):
                     yield chosen, values, pl, flag, None
+                # the flag given with the very value that is the built-in default (it must still beat a section that sets something else)
+                if chosen and pl == tuple(0 for _ in chosen):
+                    yield chosen, values, pl, 'default', None
             # the same (section, option) in two directories with different values: the higher-priority directory must win
             if chosen:
                 top = secs[chosen[0]]
@@ -322,8 +325,13 @@ def _shard(sh, ctx):
                 if flag:
                     if entry == 'extension' or (opt == 'color_words' and entry in NO_CLI_COLOR_WORDS):
                         continue
-                    # a flag value different from every configured value
+                    # a flag value different from every configured value (or, in the 'default' mode, the built-in default itself)
                     cand = [v for v in DOMAIN[opt] if v not in values.values()] or DOMAIN[opt]
+                    if flag == 'default':
+                        dv = ENTRY_DEFAULTS.get((entry, opt), DEFAULTS.get(opt))
+                        if dv is None or dv in values.values():
+                            continue
+                        cand = [dv]
                     for v in cand:
                         a = FLAGS[opt](v)
                         if a is not None:
